@@ -42,8 +42,16 @@ const Rule = "cases = (implementation, comparator min|max|half and the non-norma
 	"Mixed comparators (header oris=a,b,c: heap r of the family is built with comparator r mod 3): random histories with Merges over three heaps built with different comparators of one order " +
 	"(min / a-b / 7(a-b), or max / b-a: the full property is claimed) or of different orders (the Model says what the code does; the oracle claims the union of the entries only, " +
 	"no extremality, until the receiver has been emptied - tag foreign-order-no-extremality-claim). " +
+	"Second round: EVERY number of entries 0..200 per implementation (binary: also as initial size; mergeable: plus a Merge with a second heap of 0/1/n/n+1/7/31/32/33 entries), drained; " +
+	"three heaps built with different comparators of one order filled to 64/128/129/255-257/1023/1024 entries each, merged and drained (comparators AND sizes at once); " +
+	"type instantiation (header kv=str|struct|ptr|slice|any|slicestruct): the same streams on heaps whose K and V are strings, structs, pointers, []int (not comparable), any with mixed dynamic types, " +
+	"a struct containing a slice - every element stands for an integer and prints as it, so the lines equal the generic Model's; no dumps there (the dump hooks are int-only). " +
+	"Huge families (run.Huge(): thorough, witness search, or budget enlarged because a modelled function's digest changed; header huge=1, `bulk` lines, oracle-only with an oracle made for the size: " +
+	"distinct keys, value 2k+1, a heap is a sorted slice): one heap of 131071 / 196608 / 262143 / 262144 / 262145 entries per implementation (ascending: the minimum in the tree of order 17), " +
+	"Merges of 2^17-1 + 2^16-1, 2^16-1 + 2^17-1, 2^17 + 2^16, 2 x 131071, 2 x 262143 entries, Fibonacci heaps of 4 871 000 entries and 3*10^6 + 2*10^6 merged (floor(log_phi n)+1 passes 32 at 4 870 847), " +
+	"binomial 4 871 000, binary 5*10^6; the 2^18-1 Delete and the 2^17-1 + 2^16-1 Merge are in the corpus and run on every check. " +
 	"non-trivial = at least one operation whose " +
-	"consolidation linked >= 2 trees, or a binary-heap resize (grow or shrink); distinct = distinct (header, op list)"
+	"consolidation linked >= 2 trees, or a binary-heap resize (grow or shrink) (typed / huge cases: >= 4 entries held); distinct = distinct (header, op list)"
 
 type kv struct{ k, v int }
 
@@ -217,6 +225,15 @@ func exec(c hx.Case, res *hx.Result, mu *sync.Mutex) {
 		var r hx.Result
 		r.BadOp = -1
 		execHuge(c, &r)
+		mu.Lock()
+		*res = r
+		mu.Unlock()
+		return
+	}
+	if hx.HeaderGet(c.Header, "kv") != "" {
+		var r hx.Result
+		r.BadOp = -1
+		execTypedCase(c, &r)
 		mu.Lock()
 		*res = r
 		mu.Unlock()
@@ -990,6 +1007,7 @@ func Main(run *hx.Run) {
 		}
 	}
 	hardFamilies(run)
+	secondRound(run)
 	hugeFamilies(run)
 
 	// maxDegree: the integer Model of the float computation, on every n of a range
